@@ -6,7 +6,6 @@ import (
 	"fmt"
 	"os"
 	"strconv"
-	"time"
 
 	"github.com/hnakamur/whispertool"
 )
@@ -32,11 +31,11 @@ func (t timestampValue) String() string {
 }
 
 func (t timestampValue) Set(s string) error {
-	t2, err := time.Parse(whispertool.UTCTimeLayout, s)
+	t2, err := whispertool.ParseTimestamp(s)
 	if err != nil {
 		return err
 	}
-	*t.t = whispertool.TimestampFromStdTime(t2)
+	*t.t = t2
 	return nil
 }
 
